@@ -16,7 +16,7 @@ PKG_SEM = "pkg/util/sem"
 PKG_LL = "pkg/util/limitlistener"
 PKG_HS = "pkg/object/httpserver"
 
-IMPL_INV = "TypeOK Conserved ReusableWhenSettled HeldBack CapHoldsWhileUnchanged"
+IMPL_INV = "TypeOK Conserved ReusableWhenSettled HeldBack CapHoldsWhileUnchanged AppliedInOrder"
 CONTRACT_INV = "NeverAboveEveryCap"
 CONTRACT_PROPS = "NoAcceptAboveCap RefinesContract"
 
@@ -35,6 +35,51 @@ def sim_cfg(resizes=2, dial=5, err=1, ordered=False):
     return ("SPECIFICATION GSpec\nCONSTANTS\n  Size = 9\n  Caps = {1,2,3,4}\n  InitCaps = {1,2,3,4}\n  MaxResize = %d\n  MaxDial = %d\n"
             "  MaxErr = %d\n  Ordered = %s\nACTION_CONSTRAINT UrgentAccept\n" % (resizes, dial, err, "TRUE" if ordered else "FALSE"))
 
+
+def burst_cfg(resizes, dial, ordered):
+    """generation profile BurstAtCap (specs/ConnCap.tla): the server fills up to its cap with a client held back, then
+    `resizes` cap changes are requested back to back - every sequence of values equally likely"""
+    return sim_cfg(resizes, dial, 0, ordered).replace("ACTION_CONSTRAINT UrgentAccept", "ACTION_CONSTRAINT UrgentAccept BurstAtCap")
+
+
+def rz_kinds(beh):
+    """The kinds of the SetMaxCount calls of a behaviour, from the model's step records: G grow, E same value as configured,
+    S shrink not below the usage (completes at once), B shrink below the usage (blocks until connections close); a lower-case
+    letter = requested while an earlier call was not completed yet."""
+    k = ""
+    for s in beh:
+        if s.get("a") == "setmax" and "d" in s:
+            c = "G" if s["d"] > 0 else "E" if s["d"] == 0 else ("B" if s["n"] < s["usage"] else "S")
+            k += c.lower() if s.get("pend", 0) > 0 else c
+    return k
+
+
+def stratified(items, key, limit, first=()):
+    """Selects up to `limit` items so that every class (key) is represented before any class gets a second member."""
+    groups, order = {}, []
+    for it in items:
+        k = key(it)
+        if k not in groups:
+            groups[k] = []
+            order.append(k)
+        groups[k].append(it)
+    out = list(first)
+    depth = 0
+    while len(out) < limit:
+        took = False
+        for k in order:
+            if depth < len(groups[k]):
+                took = True
+                if len(out) < limit and groups[k][depth] not in out:
+                    out.append(groups[k][depth])
+        if not took:
+            break
+        depth += 1
+    return out[:limit]
+
+
+# call kinds that must occur behind a still pending call in the generated schedules / cases (vacuity)
+NEEDED_KINDS = {"g", "e", "s", "b"}
 
 ALL_ACTIONS = {"init", "dial", "acq", "accept", "err", "close", "setmax", "tuner", "tdone", "lclose", "acancel", "aabort", "eof"}
 
@@ -58,7 +103,10 @@ def run(ctx):
                        "Semaphore / LimitListener; traces = event logs of the real Semaphore, LimitListener and HTTPServer runtime under "
                        "concurrent connects, closes and SetMaxCount/SetMaxConnection/reload, validated by TLC against the contract "
                        "(specs/ConnCapContract.tla) with a conservative open counter; non-trivial = a trace/schedule with at least one "
-                       "resize in flight while connections are open or waiting, or a client held back at the cap")
+                       "resize in flight while connections are open or waiting, or a client held back at the cap. Schedules and "
+                       "overlap cases include bursts of cap changes on a full server with a client held back (profile BurstAtCap), one of "
+                       "every sequence of call kinds - grow, shrink, shrink below the usage, same value as configured - before any "
+                       "sequence gets a second one; the stress drivers issue same-value calls and keep connections open across bursts")
     ctx.assumptions += [
         "a cap change counts as applied when the done channel of SetMaxCount is closed; between request and completion every cap "
         "from the newest fully applied one on may justify an accept (ConnCapContract!CapsInEffect)",
@@ -66,6 +114,8 @@ def run(ctx):
         "before Close/Release is called",
         "Size of the weighted semaphore (maxCapacity = 20 000 000) is modelled by a constant larger than every reachable effective cap",
         "HTTP/3 is outside the claim (quic-go stub build)",
+        "a SetMaxCount call whose done channel closes without a background adjustment having passed the sem.resize gate is taken as "
+        "completed synchronously; its tuner steps in a schedule are empty (the contract does not say how a change is carried out)",
     ]
     hook = hook_present()
     ctx.notes.append("gate hook sem.resize %s in the tree under test" % ("present" if hook else "absent (gated schedules provoked with GOMAXPROCS(1) instead of forced)"))
@@ -359,10 +409,38 @@ def overlap_cases(ctx, state):
         if k not in seen:
             seen.add(k)
             cases.append(c)
-    behs = ctx.tlc_simulate("ConnCap_Gen", sim_cfg(3, 5, 0), num=300 if ctx.quick else 3000, depth=30)
+    fixed = list(cases)
+    nb = 300 if ctx.quick else 3000
+    for b in ctx.tlc_simulate("ConnCap_Gen", sim_cfg(3, 5, 0), num=nb, depth=30):
+        add(b)
+    general = cases[len(fixed):]
+    # bursts of cap changes on a full server with a client held back: every sequence of call kinds (grow, shrink,
+    # shrink below the usage, same value), every order of the background adjustments
+    behs = ctx.tlc_simulate("ConnCap_Gen", burst_cfg(3, 5, False), num=nb + nb // 3, depth=30, seed=ctx.seed + 104729)
+    behs += ctx.tlc_simulate("ConnCap_Gen", burst_cfg(2, 5, False), num=nb // 2, depth=26, seed=ctx.seed + 1299709)
+    if not ctx.quick:
+        behs += ctx.tlc_simulate("ConnCap_Gen", burst_cfg(4, 5, False), num=nb, depth=34, seed=ctx.seed + 15485863)
+    n0 = len(cases)
     for b in behs:
         add(b)
-    return cases[:60 if ctx.quick else 600]
+    bursts = cases[n0:]
+    kinds = {case_kinds(c) for c in bursts}
+    ctx.cov["overlap_call_patterns"] = len(kinds)
+    missing = [p for p in ("BEG", "BGE", "EBG", "BG", "BE", "EB") if p not in kinds]
+    if missing:
+        ctx.inconclusive("TLC behaviours contain no burst of cap changes of the pattern(s) %s (B shrink below usage, E same value, G grow)" % missing)
+    # one case of every (sequence of call kinds, no value above the initial cap) before any class gets a second one
+    sel = stratified(bursts, lambda c: (case_kinds(c), max(c["rz"]) <= c["cap"]), 110 if ctx.quick else 700)
+    return fixed + sel + general[:30 if ctx.quick else 300]
+
+
+def case_kinds(c):
+    """call kinds of a projected case (all calls are made back to back while `open` tokens are held)"""
+    k, prev = "", c["cap"]
+    for n in c["rz"]:
+        k += "G" if n > prev else "E" if n == prev else ("B" if n < c["open"] else "S")
+        prev = n
+    return k
 
 
 def _sem_overlap(ctx, state):
@@ -410,32 +488,55 @@ def _ll_tv(ctx, state):
 
 
 def schedules(ctx, state, ordered=False):
-    """TLC behaviours of the implementation-shaped model used as schedules: the lead (if any) first, then random ones;
-    behaviours with a resize are preferred."""
+    """TLC behaviours of the implementation-shaped model used as schedules: the lead (if any) first, then random ones
+    (behaviours with a resize are preferred), then bursts of cap changes on a full server (profile BurstAtCap), one of every
+    sequence of call kinds before any gets a second one."""
     nb = 250 if ctx.quick else 2500
     behs = ctx.tlc_simulate("ConnCap_Gen", sim_cfg(2, 5, 1, ordered), num=nb, depth=28)
     behs += ctx.tlc_simulate("ConnCap_Gen", sim_cfg(3, 4, 0, ordered), num=nb, depth=28, seed=ctx.seed + 7919)
-    # vacuity: every action of the model must occur in the generated behaviours
+    bursts = ctx.tlc_simulate("ConnCap_Gen", burst_cfg(3, 5, ordered), num=nb + nb // 2, depth=32, seed=ctx.seed + 104729)
+    if not ctx.quick:   # (quick tier: two overlapping calls come from the unconstrained behaviours above only)
+        bursts += ctx.tlc_simulate("ConnCap_Gen", burst_cfg(2, 5, ordered), num=nb // 2, depth=28, seed=ctx.seed + 1299709)
+        bursts += ctx.tlc_simulate("ConnCap_Gen", burst_cfg(4, 5, ordered), num=nb, depth=36, seed=ctx.seed + 15485863)
+    # vacuity: every action of the model must occur in the generated behaviours, and every kind of call (grow, same value,
+    # shrink, shrink below the usage) must occur behind a call that is still pending
     acts = {s_["a"] for b in behs for s_ in b}
     missing = ALL_ACTIONS - acts
     if missing:
         ctx.inconclusive("TLC behaviours never take the model action(s) %s" % sorted(missing))
     ctx.cov["model_actions_exercised"] = sorted(acts)
+    kinds = {rz_kinds(b) for b in bursts}
+    nokind = NEEDED_KINDS - {ch for k in kinds for ch in k}
+    nopat = [p for p in (("Beg", "Bge", "Ebg") if ctx.quick else ("Beg", "Bge", "Ebg", "Bg", "Be", "Eb")) if p not in kinds]
+    if nokind or nopat:
+        ctx.inconclusive("TLC behaviours contain no cap change of kind(s) %s behind a pending one / no burst of pattern(s) %s" % (sorted(nokind), nopat))
+    ctx.cov["burst_call_patterns"] = len(kinds)
     out, seen = [], set()
     if state.get("lead") and not ordered:
         behs.insert(0, state["lead"])
-    for b in behs:
-        if not b or b[0].get("a") != "init":
-            continue
-        k = vlib.sha(b)
-        if k in seen:
-            continue
-        seen.add(k)
-        out.append(b)
+
+    def uniq(bs):
+        res = []
+        for b in bs:
+            if not b or b[0].get("a") != "init":
+                continue
+            k = vlib.sha(b)
+            if k in seen:
+                continue
+            seen.add(k)
+            res.append(b)
+        return res
+
+    out = uniq(behs)
     with_rz = [b for b in out if sum(1 for s in b if s["a"] == "setmax") >= 1 and any(s["a"] == "accept" for s in b)]
     rest = [b for b in out if b not in with_rz]
-    lim = 120 if ctx.quick else 1200
-    return (with_rz + rest[:max(10, lim // 10)])[:lim]
+    lim = 100 if ctx.quick else 1000
+    general = (with_rz + rest[:max(10, lim // 10)])[:lim]
+
+    def bkey(b):
+        caps = [s["n"] for s in b if s["a"] == "setmax"]
+        return (rz_kinds(b), max(caps) <= b[0]["cap"])
+    return general + stratified(uniq(bursts), bkey, 80 if ctx.quick else 900)
 
 
 def _ll_replay(ctx, state):
@@ -486,7 +587,14 @@ def _server(ctx, state):
         return tp
 
     tp = once(300, "a")
-    ev = [e for e in ctx.read_ndjson(tp) if e.get("ev") != "note"]
+    ev_all = ctx.read_ndjson(tp)
+    ev = [e for e in ev_all if e.get("ev") != "note"]
+    nfail = sum(1 for e in ev_all if e.get("ev") == "note" and e.get("k") == "dialfail")
+    if nfail:
+        ctx.notes.append("server level: %d client(s) could not connect at all (environment); the liveness observations of their "
+                         "scenarios were not used" % nfail)
+        if nfail > 10:
+            ctx.inconclusive("C17 server level: %d clients could not connect to the server under test (environment)" % nfail)
     hard = ctx.write_ndjson("c17_server_noassume.ndjson", [e for e in ev if not e.get("assumed")])
     # 1. without any timing assumption (every cap requested since the start of a scenario stays in effect)
     _validate(ctx, state, "server", hard, "HTTPServer runtime with maxConnections changed through reload")
